@@ -85,6 +85,43 @@ pub trait Visitable : GraphBase {
 }
 //@ end
 
+//@ item src/visit/mod.rs | - | trait IntoNodeIdentifiers
+/// Access to the sequence of the graph's `NodeId`s.
+pub trait IntoNodeIdentifiers : GraphRef {
+    type NodeIdentifiers: Iterator<Item=/*+*/Self::NodeId>;
+    /// the node identifiers in iteration order
+    spec fn node_ids(self) -> Seq</*-*/Self::NodeId>;
+    fn node_identifiers(self) -> (r: Self::NodeIdentifiers)
+        /*+*/ensures r.obeys_prophetic_iter_laws(), r.decrease() is Some, r.remaining() == self.node_ids()/*-*/;   // [node_identifiers_is_node_ids]
+}
+//@ end
+
+//@ item src/visit/mod.rs | - | trait GetAdjacencyMatrix
+/// Create or access the adjacency matrix of a graph.
+///
+/// The implementor can either create an adjacency matrix, or it can return
+/// a placeholder if it has the needed representation internally.
+pub trait GetAdjacencyMatrix : GraphBase {
+    /// The associated adjacency matrix type
+    type AdjMatrix/*+*/;
+    /// "there is an edge from a to b" (either orientation when undirected) - the graph's adjacency relation
+    spec fn adj(&self, a: Self::NodeId, b: Self::NodeId) -> bool;
+    /// nodes for which adjacency may be queried
+    spec fn adj_node(&self, a: Self::NodeId) -> bool;
+    /// m is an adjacency matrix of this graph in its current state
+    spec fn is_matrix(&self, m: &Self::AdjMatrix) -> bool/*-*/;
+    /// Create the adjacency matrix
+    fn adjacency_matrix(self: &Self) -> (m: Self::AdjMatrix)
+        /*+*/ensures self.is_matrix(&m)/*-*/;
+    /// Return true if there is an edge from `a` to `b`, false otherwise.
+    ///
+    /// Computes in O(1) time.
+    fn is_adjacent(self: &Self, matrix: &Self::AdjMatrix, a: Self::NodeId, b: Self::NodeId) -> (r: bool)
+        /*+*/requires self.is_matrix(matrix), self.adj_node(a), self.adj_node(b)
+        ensures r == self.adj(a, b)/*-*/;   // [is_adjacent_law]
+}
+//@ end
+
 // ---- stand-in for fixedbitset::FixedBitSet (0.5): method names and signatures as in the crate, contracts ASSUMED from
 //      its documentation (`put`, `toggle` panic when the bit is out of bounds -> precondition) ----
 #[verifier::external_body]
